@@ -1,5 +1,5 @@
 """C15 - certificates, requests and CRLs parse as issued and verify only as issued."""
-import random
+import random, ctypes
 from hypothesis import strategies as st
 from vlib.core import Prop
 from vlib.gen import h, u, hb, ub
@@ -341,6 +341,26 @@ def build_names(ctx, l, specs):
         ref = X.ref_name(spec)
         ctx.check(nb == ref, "Name built by x509_name_%s from %r is %s, reference DER is %s" % (spec["via"], spec["attrs"], nb.hex(), ref.hex()), "name/%s/encoding" % spec["via"])
         out.append(nb)
+        # the attribute lookups read back what was supplied: the first attribute of each type in encoding order, also when it is the
+        # second member of a multi-valued RDN; a type that is not there is reported absent
+        seen = {}
+        for a in spec["attrs"]:
+            seen.setdefault(a["t"], a)
+        for t in list(seen) + [x for x in ("title", "pseudonym") if x not in seen][:1]:
+            oid = l.x509_name_type_from_name(X.AT[t][0].encode())
+            tag = ctypes.c_int(-7); vp = ctypes.c_void_p(); vl = ctypes.c_size_t(0)
+            nbb = Buf.of(nb)        # the returned value points into this block: keep it alive until the value has been copied
+            r = l.x509_name_get_value_by_type(nbb, len(nb), oid, ctypes.byref(tag), ctypes.byref(vp), ctypes.byref(vl))
+            if t in seen:
+                a = seen[t]
+                exp_tag = (X.PRINTABLE if a["t"] == "C" else X.set_tag(a["v"])) if spec["via"] == "set" else a["tag"]
+                got = ctypes.string_at(vp.value, vl.value) if (r == 1 and vp.value) else None
+                del nbb
+                ctx.check(r == 1 and tag.value == exp_tag and got == X.attr_bytes(a),
+                          "x509_name_get_value_by_type(%s) on the Name built from %r returns %d, tag %d, value %r; supplied: tag %d, value %r" %
+                          (t, spec["attrs"], r, tag.value, got, exp_tag, X.attr_bytes(a)), "name/get-value/" + ("multi" if spec.get("multi") else "single"))
+            else:
+                ctx.check(r == 0, "x509_name_get_value_by_type(%s) returns %d for a Name without that attribute" % (t, r), "name/get-value/absent")
     return out
 
 
